@@ -1193,6 +1193,9 @@ class PDFPageInterpreter:
                 ctm=mult_matrix(matrix, self.ctm),
             )
             self.device.end_figure(xobjid)
+            # the form's interpreter pointed the shared device at its own
+            # matrix; the rest of this content stream is drawn with ours.
+            self.device.set_ctm(self.ctm)
         elif subtype is LITERAL_IMAGE and "Width" in xobj and "Height" in xobj:
             self.device.begin_figure(xobjid, (0, 0, 1, 1), MATRIX_IDENTITY)
             self.device.render_image(xobjid, xobj)
